@@ -196,6 +196,11 @@ func init() {
 		ex.hctx["tickersOn"] = on
 		return nil
 	}
+	prims["vTimersEager"] = func(ex *Exec, fr *Frame, site ssa.Instruction, a []Value) Value {
+		on, _ := a[0].(*Term).BoolVal()
+		ex.hctx["eagerTimers"] = on
+		return nil
+	}
 	prims["vNativeSkip"] = func(ex *Exec, fr *Frame, site ssa.Instruction, a []Value) Value {
 		// the native run cannot observe what this harness observes (e.g. arguments of time.After)
 		ex.nondetEnv++
